@@ -899,6 +899,19 @@ def rule_status_protocol(ck, solvers, cv):
             for head, d in loops:
                 ok, why = loop_updates(fn, sf, head, d)
                 ln = (fn.by_id(fn.cfg.blocks[head]["cond"]) or {}).get("l") if fn.cfg.blocks[head].get("cond") is not None else fn.line
+                byp = BYPASS.get((fn.full, head), set())
+                if ok and byp:
+                    # a finite number of trips (under a first-pass flag) bypass the update: legitimate only while the measured vector is still
+                    # the one analysed last, i.e. unmodified since its last measurement when such a trip starts
+                    meths = {mn: [f for f in mfl if f.cls == fn.cls and f.cfg is not None][0] for mn, mfl in solvers.get(sc, {}).items() if [f for f in mfl if f.cls == fn.cls and f.cfg is not None]}
+                    ff = FilterFlow(fn, {}, meths)
+                    for hs in sorted(byp, key=str):
+                        stt = ff.ins.get(hs)
+                        if stt is None or defect_obj is None:
+                            ck.incomplete("E7.loop-defect-update", "%s::_apply_intern [%s]: a pass of the loop at line %s skips the defect update under a flag; the state of the defect vector there could not be determined" % (sc, tag, ln))
+                        elif not any(x.startswith("m:") and may_alias(x[2:], defect_obj) for x in stt):
+                            ok, why = False, "loop at line %s: a pass that skips the defect update (flag state %s) starts although the defect vector %s has been modified since its last measurement: that iterate is never analysed" % (
+                                ln, ", ".join("%s=%s" % (sf.lo.var[dd]["n"], vv) for dd, vv in sorted(hs[1])), defect_obj)
                 if ok:
                     add("loop", True, "[%s] %s" % (tag, why), ln)
                 else:
@@ -1070,35 +1083,80 @@ def precond_tested(fn, sf, call, bool_mode=False):
 
 
 class FlagGraph:
-    """the CFG of a function refined by the values of its bool *flags*: bool locals that are assigned more than once and only
-    ever receive the literals true / false (`bool first_pass(true); ... first_pass = false;`).  A state is (block, frozenset of
-    (flag decl id, value)); edges whose condition is decided by the flag values are pruned.  Without flags this is the CFG."""
+    """the CFG of a function refined by the values of its *flags*: locals with a small value domain that only ever receive
+    literals - `bool first_pass(true); ... first_pass = false;`, an enum local assigned enumerators, or a pass counter
+    `Index pass(0); ... ++pass;` that is only compared with literals (counted with saturation just above the largest literal it is
+    compared with).  Loop counters compared with anything else are not flags.  A state is (block, frozenset of (decl id, value));
+    edges whose condition is decided by the flag values are pruned.  Without flags this is the CFG."""
 
     def __init__(self, fn):
         self.fn, self.cfg = fn, fn.cfg
         self.lo = Locals(fn)
         lo = self.lo
-        cand = {}
+
+        def lit(e):
+            """('b', bool) / ('i', int) / ('e', name) for a literal, else None"""
+            e = strip(e) if isinstance(e, dict) else {}
+            if e.get("k") == "Bool":
+                return ("b", bool(e["v"]))
+            if e.get("k") == "Int":
+                try:
+                    return ("i", int(e["v"]))
+                except (TypeError, ValueError):
+                    return None
+            if e.get("k") == "Ref" and e.get("dk") == "enum":
+                return ("e", e.get("qn", e.get("n", "")).rsplit("::", 1)[-1])
+            return None
+        self.lit = lit
+        kind = {}
         for d, v in lo.var.items():
-            if v.get("ref") or lo.writes.get(d, 0) == 0 or (fn.type(v.get("t")) or "").replace("const ", "").strip() != "bool":
+            if v.get("ref"):
                 continue
-            if v.get("init") is not None and strip(v["init"]).get("k") != "Bool":
+            t = (fn.type(v.get("t")) or "").replace("const ", "").strip()
+            if v.get("init") is not None and lit(v["init"]) is None:
                 continue
-            cand[d] = True
+            if t == "bool":
+                if lo.writes.get(d, 0) > 0:
+                    kind[d] = "b"
+            elif v.get("init") is not None and lo.writes.get(d, 0) > 0:
+                k0 = lit(v["init"])[0]
+                if k0 in ("i", "e"):
+                    kind[d] = k0
+        cmp_lits = {d: [] for d in kind}
+        par = parent_map(fn) if kind else {}
         for n in fn.nodes():
-            if n.get("k") == "Assign" and strip(n["lhs"]).get("k") == "Ref" and strip(n["lhs"]).get("d") in cand:
-                if n.get("op") != "=" or strip(n["rhs"]).get("k") != "Bool":
-                    cand.pop(strip(n["lhs"])["d"], None)
-            elif n.get("k") == "Un" and n.get("op") in ("++", "--") and strip(n["e"]).get("k") == "Ref":
-                cand.pop(strip(n["e"]).get("d"), None)
+            k = n.get("k")
+            if k == "Assign" and strip(n["lhs"]).get("k") == "Ref" and strip(n["lhs"]).get("d") in kind:
+                d = strip(n["lhs"])["d"]
+                l = lit(n["rhs"])
+                ok = (n.get("op") == "=" and l is not None and l[0] == kind[d]) or (kind[d] == "i" and n.get("op") == "+=" and l is not None and l[0] == "i" and l[1] >= 0)
+                if not ok:
+                    kind.pop(d, None)
+            elif k == "Un" and n.get("op") in ("++", "--") and strip(n["e"]).get("k") == "Ref" and strip(n["e"]).get("d") in kind:
+                d = strip(n["e"])["d"]
+                if not (kind[d] == "i" and n["op"] == "++"):
+                    kind.pop(d, None)
             elif is_call(n):
-                for i, a in enumerate(n.get("a", [])):
+                for i2, a in enumerate(n.get("a", [])):
                     a = strip(a) if isinstance(a, dict) else {}
-                    if a.get("k") == "Ref" and a.get("d") in cand:
-                        pt = fn.type(n["pt"][i]) if i < len(n.get("pt", [])) else "&"
+                    if a.get("k") == "Ref" and a.get("d") in kind:
+                        pt = fn.type(n["pt"][i2]) if i2 < len(n.get("pt", [])) else "&"
                         if ("&" in pt or "*" in pt) and "const" not in pt:
-                            cand.pop(a["d"], None)
-        self.flags = set(cand)
+                            kind.pop(a["d"], None)
+            elif k == "Bin" and n.get("op") in ("==", "!=", "<", "<=", ">", ">="):
+                for x, y in ((n["lhs"], n["rhs"]), (n["rhs"], n["lhs"])):
+                    x = strip(x)
+                    if x.get("k") == "Ref" and x.get("d") in kind and kind[x["d"]] in ("i", "e"):
+                        l = lit(y)
+                        if l is None or l[0] != kind[x["d"]]:
+                            kind.pop(x["d"], None)          # compared with something that is not a literal: a real counter, not a flag
+                        else:
+                            cmp_lits[x["d"]].append(l[1])
+        for d in [d for d in kind if kind[d] in ("i", "e") and not cmp_lits.get(d)]:
+            kind.pop(d)
+        self.kind = kind
+        self.cap = {d: max(cmp_lits[d]) + 1 for d in kind if kind[d] == "i"}
+        self.flags = set(kind)
 
     def after_block(self, b, fv):
         if not self.flags:
@@ -1117,11 +1175,20 @@ class FlagGraph:
             for v in n.get("vars", []):
                 if v["d"] in self.flags:
                     if v.get("init") is not None:
-                        vals[v["d"]] = bool(strip(v["init"])["v"])
+                        vals[v["d"]] = self.lit(v["init"])[1]
                     else:
                         vals.pop(v["d"], None)
         elif n.get("k") == "Assign" and strip(n["lhs"]).get("k") == "Ref" and strip(n["lhs"]).get("d") in self.flags:
-            vals[strip(n["lhs"])["d"]] = bool(strip(n["rhs"])["v"])
+            d = strip(n["lhs"])["d"]
+            l = self.lit(n["rhs"])
+            if n.get("op") == "=":
+                vals[d] = min(l[1], self.cap[d]) if self.kind[d] == "i" else l[1]
+            elif d in vals:
+                vals[d] = min(vals[d] + l[1], self.cap[d])
+        elif n.get("k") == "Un" and n.get("op") == "++" and strip(n["e"]).get("k") == "Ref" and strip(n["e"]).get("d") in self.flags:
+            d = strip(n["e"])["d"]
+            if d in vals:
+                vals[d] = min(vals[d] + 1, self.cap[d])
 
     def truth(self, c, vals):
         """three-valued truth of a branch condition under the flag values (dict)"""
@@ -1131,7 +1198,7 @@ class FlagGraph:
         k = c.get("k")
         if k == "Bool":
             return bool(c["v"])
-        if k == "Ref" and c.get("d") in self.flags:
+        if k == "Ref" and c.get("d") in self.flags and self.kind[c["d"]] == "b":
             return vals.get(c["d"])
         if k == "Un" and c.get("op") == "!":
             t = self.truth(c["e"], vals)
@@ -1141,10 +1208,31 @@ class FlagGraph:
             if c["op"] == "&&":
                 return False if (a is False or b is False) else (True if (a and b) else None)
             return True if (a or b) else (False if (a is False and b is False) else None)
-        if k == "Bin" and c.get("op") in ("==", "!="):
+        if k == "Bin" and c.get("op") in ("==", "!=", "<", "<=", ">", ">="):
+            l, r = strip(c["lhs"]), strip(c["rhs"])
+            op = c["op"]
+            if not (l.get("k") == "Ref" and l.get("d") in self.flags) and r.get("k") == "Ref" and r.get("d") in self.flags:
+                l, r = r, l
+                op = {"<": ">", "<=": ">=", ">": "<", ">=": "<=", "==": "==", "!=": "!="}[op]
+            if l.get("k") == "Ref" and l.get("d") in self.flags and l["d"] in vals:
+                d, kd = l["d"], self.kind[l["d"]]
+                if kd == "b":
+                    t2 = self.truth(r, vals)
+                    if t2 is not None and op in ("==", "!="):
+                        return (vals[d] == t2) == (op == "==")
+                    return None
+                lt = self.lit(r)
+                if lt is None or lt[0] != kd:
+                    return None
+                v, x = vals[d], lt[1]
+                if kd == "e":
+                    return ((v == x) == (op == "==")) if op in ("==", "!=") else None
+                if v >= self.cap[d]:          # saturated: the value is at least cap > x
+                    return {"==": False, "!=": True, "<": False, "<=": False, ">": True, ">=": True}[op]
+                return {"==": v == x, "!=": v != x, "<": v < x, "<=": v <= x, ">": v > x, ">=": v >= x}[op]
             a, b = self.truth(c["lhs"], vals), self.truth(c["rhs"], vals)
-            if a is not None and b is not None and (self.fn.ntype(self.lo.resolve(c["lhs"])) or "").replace("const ", "").strip() == "bool":
-                return (a == b) == (c["op"] == "==")
+            if a is not None and b is not None and op in ("==", "!="):
+                return (a == b) == (op == "==")
         return None
 
     def edges(self, b, fv):
@@ -1173,6 +1261,9 @@ class FlagGraph:
         return seen
 
 
+BYPASS = {}
+
+
 def loop_updates(fn, sf, head, d):
     cfg = fn.cfg
     marked = set()
@@ -1188,7 +1279,7 @@ def loop_updates(fn, sf, head, d):
     body = cfg.blocks[head]["succ"][0]
     # inner counted loops are entered at least once (their zero-trip exit is not a path of interest:
     # `for(k = 0; k <= dim; ++k)`); the exit edge of an inner loop head is followed only from its back edge
-    inner = {b for b, blk in cfg.blocks.items() if b != head and blk.get("term") in ("ForStmt", "WhileStmt", "DoStmt") and len(blk.get("succ", [])) == 2}
+    inner = {b for b, blk in cfg.blocks.items() if b != head and blk.get("term") in ("ForStmt", "WhileStmt", "DoStmt", "CXXForRangeStmt") and len(blk.get("succ", [])) == 2}
     # The CFG is refined by the values of bool flags (FlagGraph): a trip that bypasses the update under `first_pass` and clears the
     # flag leads to another state of the loop head; only a *cycle* through a head state without an update skips the criteria for good.
     fg = FlagGraph(fn)
@@ -1205,6 +1296,8 @@ def loop_updates(fn, sf, head, d):
             if cur == hs:
                 cyc = hs
                 break
+            if b == head and cur != hs:
+                BYPASS.setdefault((fn.full, head), set()).add(hs)          # a trip from hs around the loop without a defect update (it ends in another flag state)
             nxt = fg.edges(*cur)
             if b == head:
                 nxt = [x for x in nxt if x[0] == body]
@@ -3058,7 +3151,7 @@ def rule_inner_criteria(ck, solvers, facts=None):
             # innermost loop containing all of them
             loops = []
             for head, hb in cfg.blocks.items():
-                if hb.get("term") in ("WhileStmt", "ForStmt", "DoStmt"):
+                if hb.get("term") in ("WhileStmt", "ForStmt", "DoStmt", "CXXForRangeStmt"):
                     body = natural_loop(cfg, head)
                     if all(cb in body for cb in crit_blocks):
                         loops.append((len(body), head, body))
@@ -3602,6 +3695,10 @@ class ListFlow:
             # a list handed to some other callee
             for a in n.get("a", []):
                 f2 = self.field_of(a)
+                if f2 in self.group and empty_temp_swap(n):
+                    st[f2] = ("0", 0)          # std::vector<T>().swap(list) empties the list
+                    self.normalise(st, sid)
+                    continue
                 if f2 in self.group:
                     pt = fn.type(n["pt"][n["a"].index(a)]) if n.get("pt") and n["a"].index(a) < len(n["pt"]) else ""
                     if "const" not in pt:
@@ -3979,6 +4076,14 @@ def rule_numeric_refresh(ck, solvers):
                        "the solver keeps the data of the old matrix" % ", ".join(sorted(set(state_guards))[:2])), fn.file, stmts[0].get("l"))
 
 
+def empty_temp_swap(n):
+    """`std::vector<T>().swap(X)`: the receiver is a default-constructed temporary"""
+    if n.get("k") != "MCall" or cname(n) != "swap" or n.get("obj") is None or len(n.get("a", [])) != 1:
+        return False
+    o = strip(n["obj"])
+    return o.get("k") in ("Construct", "TempObj") and not o.get("a")
+
+
 def rule_recycled_state(ck, solvers):
     """containers that a solver fills with matrix-derived vectors while iterating and keeps for the next solve (recycling)
     are numeric state: they must not survive done_numeric()/init_numeric()"""
@@ -4025,19 +4130,64 @@ def rule_recycled_state(ck, solvers):
         key = "%s::recycled-state/{%s}" % (sc, ",".join(x[5:] for x in flds))
         releasers = []
         missing = list(flds)
+        unclear = []
+
+        def released_in(g, fld, depth=0):
+            """does function g empty the list on every path (directly or through an own helper it always calls)? True / False / None (touches it in a way not modelled)"""
+            glo = Locals(g)
+            res = False
+            for n in g.nodes():
+                hit = None
+                if n.get("k") == "MCall" and n.get("obj") is not None and base_key(objkey(glo, n["obj"])) == fld:
+                    if cname(n) == "clear" or (cname(n) == "resize" and n.get("a") and term(glo, n["a"][0]) == "0"):
+                        hit = n
+                    elif cname(n) == "swap" or (not n.get("cconst") and cname(n) not in LEN_NEUTRAL and cname(n) not in ("at", "front", "back")):
+                        res = None if res is False else res
+                elif is_call(n) and any(isinstance(a, dict) and strip(a).get("k") in ("Member", "Ref") and base_key(objkey(glo, a)) == fld for a in n.get("a", [])) \
+                        and not (n.get("k") == "MCall" and (n.get("obj") is None or n["obj"].get("k") == "This")):
+                    if empty_temp_swap(n):
+                        hit = n          # std::vector<T>().swap(list): the list is empty afterwards
+                    else:
+                        ai = [i2 for i2, a in enumerate(n.get("a", [])) if isinstance(a, dict) and strip(a).get("k") in ("Member", "Ref") and base_key(objkey(glo, a)) == fld][0]
+                        pt = g.type(n["pt"][ai]) if ai < len(n.get("pt", [])) else "&"
+                        if ("&" in pt or "*" in pt) and "const" not in pt:
+                            res = None if res is False else res
+                elif as_assign(n) is not None and base_key(objkey(glo, as_assign(n)[0])) == fld:
+                    r = through_moves(glo, as_assign(n)[1])
+                    if r.get("k") in ("Construct", "TempObj", "InitList") and not r.get("a") and not r.get("s"):
+                        hit = n
+                    else:
+                        res = None if res is False else res
+                elif n.get("k") == "MCall" and (n.get("obj") is None or n["obj"].get("k") == "This") and cname(n) in helpers and helpers[cname(n)] is not g and depth < 2:
+                    sub = released_in(helpers[cname(n)], fld, depth + 1)
+                    if sub is True:
+                        hit = n
+                    elif sub is None:
+                        res = None if res is False else res
+                if hit is not None:
+                    st_ = stmt_of(g, parent_map(g), hit) or hit
+                    if "i" in st_ and g.cfg.must_pass(lambda q, _i=st_["i"]: q.get("i") == _i)[0]:
+                        res = True
+                    elif res is False:
+                        res = None
+            return res
         for mname in ("done_numeric", "init_numeric"):
             g = methods.get(mname)
             if g is None:
                 continue
-            glo = Locals(g)
             ok_here = []
             for fld in flds:
-                if any(c.get("k") == "MCall" and cname(c) == "clear" and c.get("obj") is not None and base_key(objkey(glo, c["obj"])) == fld
-                       and g.cfg.must_pass(lambda q, _i=c["i"]: q.get("i") == _i)[0] for c in g.calls()):
+                r = released_in(g, fld)
+                if r is True:
                     ok_here.append(fld)
+                elif r is None:
+                    unclear.append("%s in %s()" % (fld[5:], mname))
             if ok_here:
                 releasers.append("%s() clears %s" % (mname, ", ".join(x[5:] for x in ok_here)))
             missing = [x for x in missing if x not in ok_here]
+        if missing and unclear:
+            ck.incomplete("E8.recycled-state", "%s: %s is modified conditionally / by an operation this rule does not model (%s): cannot decide whether the recycled state is released" % (key, ", ".join(x[5:] for x in missing), "; ".join(unclear[:3])))
+            continue
         f0, n0 = kept[flds[0]]
         ck.ob("E8.recycled-state", key, not missing,
               ("%s keeps %s across solves (line %s `%s` appends vectors computed with the system matrix, nothing clears the list at the start of a solve) and neither done_numeric() nor init_numeric() "
@@ -4066,7 +4216,9 @@ class BalanceFlow:
     """forward dataflow: multiset of signed step lengths applied to the iterate (x += c w) and to the defect
     vector (r += -c A w).  r = b - A x needs every step length to cancel; a fresh r := b - A x resets."""
 
-    def __init__(self, fn, sol_key, def_key, methods=None, entry=(), depth=0):
+    def __init__(self, fn, sol_key, def_key, methods=None, entry=(), depth=0, first_pass=False):
+        """first_pass: back edges are not followed - the states are those of the first trip through every loop (a real path), which
+        stays decidable when an imbalance that grows from trip to trip makes the fixpoint state at the loop head unknown"""
         self.fn, self.sol, self.dfk = fn, sol_key, def_key
         self.methods, self.depth = methods or {}, depth
         self.lo = Locals(fn)
@@ -4081,6 +4233,8 @@ class BalanceFlow:
             b = work.pop()
             out = self.transfer(b, self.ins[b], False)
             for s2 in cfg.succ.get(b, []):
+                if first_pass and s2 is not None and s2 in cfg.dom.get(b, ()):
+                    continue
                 old = self.ins.get(s2, "none")
                 new = out if old == "none" else (old if old == out else None)
                 if old == "none" or new != old:
@@ -4150,6 +4304,27 @@ class BalanceFlow:
                 if not outs:
                     # void helper without explicit return: the state at its normal exits
                     outs = [sub.transfer(b2, sub.ins[b2], False) for b2 in callee.cfg.normal_exit_preds() if b2 in sub.ins]
+                # step lengths named after scalar parameters of the helper are the caller's arguments
+                binds = {}
+                for prm, a in zip(callee.params, n.get("a", [])):
+                    if "Vector" not in strip_targs(callee.type(prm["t"]) or ""):
+                        binds["$" + prm["n"]] = signed_coef(lo, a)
+
+                def rebound(state):
+                    if state is None:
+                        return None
+                    d = {}
+                    for c, v in state:
+                        sg = 1
+                        for pnm, (tc, ts) in binds.items():
+                            if c == pnm:
+                                c, sg = tc, ts
+                                break
+                            if re.search(r"(?<![\w$])%s(?!\w)" % re.escape(pnm), c):
+                                c = re.sub(r"(?<![\w$])%s(?!\w)" % re.escape(pnm), tc if ts > 0 else "neg(%s)" % tc, c)
+                        d[c] = d.get(c, 0) + v * sg
+                    return tuple(sorted((k2, v2) for k2, v2 in d.items() if v2 != 0))
+                outs = [rebound(o) for o in outs]
                 st = outs[0] if outs and all(o == outs[0] for o in outs) else None
                 continue
             for i2, a in enumerate(n.get("a", [])):
@@ -4187,6 +4362,7 @@ def rule_solution_defect_balance(ck, solvers, cv=None):
                 if cand and mname not in api:
                     methods[mname] = cand[0]
             bf = BalanceFlow(fn, "$0", dk, methods)
+            bf1 = None
             sflow = StatusFlow(fn, cv or {}, _s) if cv else None
             nret = 0
             for rid, st in sorted(bf.at_return.items()):
@@ -4195,6 +4371,11 @@ def rule_solution_defect_balance(ck, solvers, cv=None):
                 if status_lit(rn.get("e")) == "aborted" or (vals and {v[0] for v in vals} == {"aborted"}):
                     continue            # the iterate of an aborted run is not claimed to be a solution
                 nret += 1
+                if st is None and not bf.unknown_ops:
+                    # path-dependent at the fixpoint: decide the first trip through the loops (a feasible path)
+                    if bf1 is None:
+                        bf1 = BalanceFlow(fn, "$0", dk, methods, first_pass=True)
+                    st = bf1.at_return.get(rid) or None           # balanced on the first trip but unknown later: stays undecided
                 if st is None:
                     ck.incomplete("E8.solution-defect-balance", "%s::_apply_intern [%s]: at the return at line %s the updates of iterate and defect cannot be related (%s)" % (
                         sc, tag, rn.get("l"), "; ".join(bf.unknown_ops[:2]) or "path-dependent"))
@@ -4262,6 +4443,47 @@ def alloc_only(lo, e):
     return False
 
 
+def is_vector_expr(fn, lo, e):
+    """does the expression denote a LAFEM / Global vector object (not a scalar whose typedef merely mentions a vector type in its
+    template arguments, not a std::vector, matrix, filter or smart pointer)?"""
+    e2 = lo.resolve(e) if isinstance(e, dict) else {}
+    t = (fn.ntype(e2) or (fn.ntype(e) if isinstance(e, dict) else "") or "").strip()
+    top = strip_targs(t)
+    if re.match(r"^(const )?std::vector\b", t) or "Matrix" in top or "Filter" in top or "shared_ptr" in top:
+        return False
+    if "Vector" in top:
+        return True
+    if "Vector" in t and ("value_type" in top or "reference" in top):
+        return True          # an element of a std::vector<VectorType> (at(), front(), operator[], *iterator)
+    return False
+
+
+def range_vars(fn):
+    """{decl id of a range-for variable: the range expression} - `for(auto& v : _vec_u)`: v denotes every element of _vec_u in turn"""
+    out = {}
+    for n in fn.nodes():
+        if n.get("k") == "ForRange" and isinstance(n.get("var"), dict) and n.get("range") is not None:
+            out[n["var"].get("d")] = n["range"]
+    return out
+
+
+def algorithm_over(fn, lo, n):
+    """a call of a free function (std::for_each, std::transform, ...) that receives X.begin() / X.end() of a container: -> (the
+    container expression X, the Function of a lambda argument or None), else None"""
+    if n.get("k") != "Call":
+        return None
+    cont, lam = None, None
+    for a in n.get("a", []):
+        a2 = lo.resolve(a) if isinstance(a, dict) else {}
+        if a2.get("k") == "MCall" and cname(a2) in ("begin", "end", "cbegin", "cend", "rbegin", "rend") and a2.get("obj") is not None:
+            cont = a2["obj"]
+        elif a2.get("k") == "Lambda":
+            lam = a2
+    if cont is None:
+        return None
+    return cont, lam
+
+
 class DefinedFlow:
     """must-analysis 'this work vector received a value in this solve' on the first pass through a function: back edges are
     removed and every loop is taken to run its body once (the check's standing assumption for the counted inner loops), the
@@ -4275,6 +4497,7 @@ class DefinedFlow:
         self.lo = Locals(fn)
         self.shared = shared if shared is not None else {"reads": [], "entries": []}
         self.fg = FlagGraph(fn)          # bool flags (`first_pass`) are propagated as constants like _num_iter
+        self.rvars = range_vars(fn)
         cfg = fn.cfg
         back = {(b, h) for b in cfg.blocks for h in cfg.succ.get(b, []) if h is not None and h in cfg.dom.get(b, ())}
         heads = {h for b, h in back}
@@ -4282,7 +4505,7 @@ class DefinedFlow:
         for h in heads:
             body = natural_loop(cfg, h)
             outs = [x for x in succ[h] if x not in body]
-            if outs and cfg.blocks[h].get("term") in ("WhileStmt", "ForStmt"):
+            if outs and cfg.blocks[h].get("term") in ("WhileStmt", "ForStmt", "CXXForRangeStmt"):
                 succ[h] = [x for x in succ[h] if x in body]          # the body runs once ...
                 for b, h2 in back:
                     if h2 == h:
@@ -4354,10 +4577,12 @@ class DefinedFlow:
 
     def vkey(self, e):
         """(key at container granularity, is a vector / container of vectors) of an expression"""
+        e0 = strip(e) if isinstance(e, dict) else {}
+        if e0.get("k") == "Ref" and e0.get("d") in getattr(self, "rvars", {}):
+            return self.vkey(self.rvars[e0["d"]])          # a range-for variable: the container it runs over
         e2 = self.lo.resolve(e)
         t = (self.fn.ntype(e2) or self.fn.ntype(e) or "").strip()
-        top = strip_targs(t)
-        if "Vector" not in t or "Matrix" in top or "Filter" in top or "shared_ptr" in top:
+        if not is_vector_expr(self.fn, self.lo, e) and not (re.match(r"^(const )?std::vector\b", t) and "Vector" in t):
             return None
         k = objkey(self.lo, e)
         if k.startswith("?"):
@@ -4393,6 +4618,12 @@ class DefinedFlow:
                         if src.get("k") == "MCall" and cname(src) == "clone" and src.get("obj") is not None:
                             self.rd(st, src["obj"], n)
                         st.add(kl)
+                continue
+            alg = algorithm_over(fn, lo, n) if k == "Call" else None
+            if alg is not None:
+                kc = self.vkey(alg[0])
+                if kc is not None:
+                    st.add(kc)          # a standard algorithm runs a function over the elements: optimistic (it may give them a value)
                 continue
             if k != "MCall":
                 continue
@@ -4722,13 +4953,31 @@ FILTER_LINEAR = ("axpy", "scale", "copy")
 NORM_CALLS = ("norm2", "norm2_async", "norm2sqr")
 
 
+def norm_call_of(lo, e):
+    """the vector-norm call a scalar expression stands for: v.norm2() / norm2_async().wait() / norm2sqr(), or sqrt(v.dot(v)) -> the MCall node, else None"""
+    e = lo.resolve(e)
+    for _ in range(4):
+        if e.get("k") == "MCall" and cname(e) == "wait" and e.get("obj") is not None:
+            e = lo.resolve(e["obj"])
+        elif e.get("k") == "Call" and cname(e) == "sqrt" and len(e.get("a", [])) == 1:
+            e = lo.resolve(e["a"][0])
+        else:
+            break
+    if e.get("k") == "MCall" and cname(e) in NORM_CALLS:
+        return e
+    if e.get("k") == "MCall" and cname(e) in ("dot", "dot_async") and e.get("obj") is not None and len(e.get("a", [])) == 1 \
+            and objkey(lo, e["obj"]) == objkey(lo, e["a"][0]) and not objkey(lo, e["obj"]).startswith("?"):
+        return e
+    return None
+
+
 def may_alias(k1, k2):
     """two keys of elements of one container: distinct integer literal indices do not alias, everything else may"""
     if k1 == k2:
         return True
     if base_key(k1) != base_key(k2) or "[" not in k1 or "[" not in k2:
         return False
-    i1, i2 = k1[k1.find("[") + 1:-1], k2[k2.find("[") + 1:-1]
+    i1, i2 = k1[k1.find("[") + 1:-1], k2[k2.find("[") + 1:-1]          # ("*" and "?" are not integer literals: they alias every element)
     return not (re.match(r"^\d+$", i1) and re.match(r"^\d+$", i2))
 
 
@@ -4753,13 +5002,12 @@ class FilterFlow:
         self.counting_norms = set()
         for c in fn.calls():
             if cname(c) == "_update_defect" and len(c.get("a", [])) == 1:
-                e = self.lo.resolve(c["a"][0])
-                if e.get("k") == "MCall" and cname(e) == "wait":
-                    e = self.lo.resolve(e.get("obj"))
-                if e.get("k") == "MCall" and cname(e) in NORM_CALLS:
+                e = norm_call_of(self.lo, c["a"][0])
+                if e is not None:
                     self.counting_norms.add(e["i"])
         # states are kept apart by the values of bool flags (FlagGraph): the pass under `first_pass` and the later passes are not merged
         self.fg = FlagGraph(fn)
+        self.rvars = range_vars(fn)
         start = (cfg.entry, frozenset())
         self.ins = {start: dict(entry)}
         self.exit_state = {}
@@ -4834,16 +5082,24 @@ class FilterFlow:
         st["m:" + kd] = here
 
     def vec_key(self, e):
-        e2 = self.lo.resolve(e)
-        t = (self.fn.ntype(e2) or self.fn.ntype(e) or "").strip()
-        top = strip_targs(t)
-        if "Vector" not in t or re.match(r"^(const )?std::vector\b", t) or "Matrix" in top or "Filter" in top or "shared_ptr" in top:
+        e0 = strip(e) if isinstance(e, dict) else {}
+        if e0.get("k") == "Ref" and e0.get("d") in self.rvars:
+            kc = objkey(self.lo, self.rvars[e0["d"]])          # a range-for variable: any element of the container
+            return None if kc.startswith("?") else kc + "[*]"
+        if not is_vector_expr(self.fn, self.lo, e):
             return None
         k = objkey(self.lo, e)
         return None if k.startswith("?") else k
 
     def set_state(self, st, k, origin):
         self.touched(st, k)
+        if k.endswith("[*]"):
+            # the same statement is applied to every element (range-for / standard algorithm)
+            for k2 in [x for x in st if not self.PFX.match(x) and base_key(x) == base_key(k) and "[" in x]:
+                del st[k2]
+            if origin is not None:
+                st[base_key(k) + "[?]"] = origin
+            return
         if origin is None:
             if "[" in k:
                 st[k] = None            # this very element (by the text of its index) is filtered now
@@ -4885,6 +5141,27 @@ class FilterFlow:
                     else:
                         self.set_state(st, kl, "line %s `%s`" % (n.get("l"), render(n)[:50]))
                 continue
+            alg = algorithm_over(fn, lo, n) if k == "Call" else None
+            if alg is not None:
+                kc = objkey(lo, alg[0])
+                ty = (fn.ntype(lo.resolve(alg[0])) or "")
+                if not kc.startswith("?") and "Vector" in ty:
+                    lamfn = None
+                    if alg[1] is not None:
+                        cands = [f for f in _LAMBDAS if f.qn.startswith(fn.qn + "::<lambda@") and f.line == alg[1].get("l")]
+                        lamfn = cands[0] if cands else None
+                    if lamfn is not None and lamfn.cfg is not None and len(lamfn.params) >= 1:
+                        sub = FilterFlow(lamfn, {}, {}, None, 9, {"entries": [], "bad": [], "nsites": 0, "unknown": []})
+                        org = sub.exit_state.get("$0")
+                        if isinstance(org, str):
+                            self.set_state(st, kc + "[*]", "line %s `%s`: %s" % (n.get("l"), render(n)[:40], org))
+                        elif any(c.get("k") == "MCall" and cname(c) == "format" and all(is_zero(Locals(lamfn), a) for a in c.get("a", [])) for c in lamfn.calls()):
+                            self.set_state(st, kc + "[*]", None)
+                        else:
+                            self.touched(st, kc + "[*]")
+                    else:
+                        self.set_state(st, kc + "[*]", "unknown: line %s `%s` (a function this rule cannot see is applied to every element)" % (n.get("l"), render(n)[:40]))
+                continue
             if k != "MCall":
                 continue
             nm = cname(n)
@@ -4899,16 +5176,16 @@ class FilterFlow:
                     self.shared["nsites"] += 1
                     if kd is None:
                         self.shared["unknown"].append("%s: the measured vector %s is not an identifiable object" % (here, render(n["a"][0])[:40]))
+                    elif (self.read(st, kd) or "").startswith("unknown:"):
+                        self.shared["unknown"].append("%s: %s" % (here, self.read(st, kd)[9:]))
                     elif self.read(st, kd) is not None:
                         self.shared["bad"].append((n.get("l"), fn.name, nm, kd, self.read(st, kd)))
                 if kd is not None:
                     self.measure(st, kd, here, record, nm)
                 continue
             if own and nm in ("_update_defect", "is_converged", "is_diverged") and len(n.get("a", [])) == 1:
-                e = lo.resolve(n["a"][0])
-                if e.get("k") == "MCall" and cname(e) == "wait":
-                    e = lo.resolve(e.get("obj"))
-                if e.get("k") == "MCall" and cname(e) in NORM_CALLS and e.get("obj") is not None and self.vec_key(e["obj"]) is not None:
+                e = norm_call_of(lo, n["a"][0]) or {}
+                if e.get("k") == "MCall" and e.get("obj") is not None and self.vec_key(e["obj"]) is not None:
                     kd = self.vec_key(e["obj"])
                     if record:
                         self.shared["nsites"] += 1
@@ -4924,7 +5201,7 @@ class FilterFlow:
                         if unmodified:
                             st["m:" + kd] = "line %s `%s`" % (e.get("l"), render(e)[:40])
                 continue
-            if obj is not None and not own and nm in NORM_CALLS:
+            if obj is not None and not own and (nm in NORM_CALLS or (nm in ("dot", "dot_async") and norm_call_of(lo, n) is not None)):
                 kv = self.vec_key(obj)
                 if kv is not None:
                     org = self.read(st, kv)
@@ -5054,8 +5331,13 @@ class FilterFlow:
         return st
 
 
+_LAMBDAS = []
+
+
 def rule_defect_filtered(ck, solvers, facts=None):
     import c07_dim
+    del _LAMBDAS[:]
+    _LAMBDAS.extend(f for f in (facts.functions if facts is not None else []) if "<lambda@" in f.qn)
     extra = base_written_fields(facts) if facts is not None else set()
     for sc in sorted(SOLVERS):
         members = solvers.get(sc, {})
